@@ -38,21 +38,21 @@ func fr(b []byte) frameRec {
 }
 
 type sockRec struct {
-	K      string     `json:"k"`
-	Op     string     `json:"op"` // recv | send | hpai
-	Mode   string     `json:"mode"`
-	Tag    string     `json:"tag"`
-	Sent   []frameRec `json:"sent"`
-	Got    []string   `json:"got"`    // frames surfaced on Inbound, re-encoded (hex)
-	Closed int        `json:"closed"` // Inbound closed after Close / peer close
-	Gone   int        `json:"gone"`   // receiver goroutine absent afterwards
-	Segs   []int      `json:"segs"`   // TCP: segment lengths written
-	Peer   []string   `json:"peer"`   // send: frames the peer saw (datagrams / parsed stream)
-	Contig int        `json:"contig"` // send: the TCP stream parsed into whole frames without leftover
-	SendLocal int     `json:"sendlocal"`
-	Ctl    []int      `json:"ctl"`   // hpai: control endpoint of the ConnReq <<proto,a,b,c,d,port>>
-	Tun    []int      `json:"tun"`
-	Local  []int      `json:"local"` // real local endpoint of the socket
+	K         string     `json:"k"`
+	Op        string     `json:"op"` // recv | send | hpai
+	Mode      string     `json:"mode"`
+	Tag       string     `json:"tag"`
+	Sent      []frameRec `json:"sent"`
+	Got       []string   `json:"got"`    // frames surfaced on Inbound, re-encoded (hex)
+	Closed    int        `json:"closed"` // Inbound closed after Close / peer close
+	Gone      int        `json:"gone"`   // receiver goroutine absent afterwards
+	Segs      []int      `json:"segs"`   // TCP: segment lengths written
+	Peer      []string   `json:"peer"`   // send: frames the peer saw (datagrams / parsed stream)
+	Contig    int        `json:"contig"` // send: the TCP stream parsed into whole frames without leftover
+	SendLocal int        `json:"sendlocal"`
+	Ctl       []int      `json:"ctl"` // hpai: control endpoint of the ConnReq <<proto,a,b,c,d,port>>
+	Tun       []int      `json:"tun"`
+	Local     []int      `json:"local"` // real local endpoint of the socket
 }
 
 func blank(op, mode, tag string) sockRec {
@@ -98,16 +98,24 @@ func goroutinesWith(sub string) int {
 	return strings.Count(string(buf), sub)
 }
 
+// collect keeps every surfaced frame as the consumer got it and renders them only when the stream has gone quiet: a
+// frame the consumer still holds must not change when later datagrams arrive (the receivers reuse their buffers).
 func collect(in <-chan knxnet.Service, want int, quiet time.Duration) (got []string, closed bool) {
+	var held []knxnet.Service
+	defer func() {
+		for _, s := range held {
+			got = append(got, reenc(s))
+		}
+	}()
 	for {
 		select {
 		case s, ok := <-in:
 			if !ok {
-				return got, true
+				return nil, true
 			}
-			got = append(got, reenc(s))
+			held = append(held, s)
 		case <-time.After(quiet):
-			return got, false
+			return nil, false
 		}
 	}
 }
@@ -122,7 +130,16 @@ func frameSet(n int, rng interface{ Intn(int) int }, malformed bool, maxLen int)
 	var fs [][]byte
 	for i := 0; i < n; i++ {
 		var b []byte
-		switch rng.Intn(12) {
+		switch rng.Intn(14) {
+		case 12, 13:
+			// a service type the library has no decoder for (surfaced as *UnknownService with its body)
+			ids := []int{0x0950, 0x0951, 0x0310, 0x0311, 0x0422, 0x0423, 0x0203 + 0x0700, 0x020b}
+			body := make([]byte, 2+rng.Intn(40))
+			for j := range body {
+				body[j] = byte(rng.Intn(256))
+			}
+			id := ids[rng.Intn(len(ids))]
+			b = append([]byte{6, 0x10, byte(id >> 8), byte(id), byte((6 + len(body)) >> 8), byte(6 + len(body))}, body...)
 		case 0:
 			b = knxnet.AllocAndPack(&knxnet.TunnelReq{Channel: uint8(rng.Intn(256)), SeqNumber: uint8(i), Payload: payload(i)})
 		case 1:
